@@ -84,8 +84,9 @@ CLAIMED["C10"] = dict(
          "(root_savedlist of the unrooted items first, then the given Roots whole, in order), each the encoding of its source.",
     note="List items that are nodes of other trees: each step is proved through the public entry point (C10_rooted_item: the node "
          "alone becomes a new last child of the root group of that name; mdBody_self: the copy's metadata are unchanged by the "
-         "merge), their fold over a whole list is modelled (EmdModel.SaveList) and checked by the correspondence and a direct "
-         "layout oracle on every generated list. The array_i / dictionary_i naming inside root_savedlist is part of listRoots (model), compared with the code.",
+         "merge; C10_rooted_items_fold: all rooted items of one root, saved one after the other, leave the copy with exactly those "
+         "nodes alone, in order). saveList as one statement for lists mixing several roots' items with plain items is modelled "
+         "(EmdModel.SaveList) and checked by the correspondence and a direct layout oracle on every generated list. The array_i / dictionary_i naming inside root_savedlist is part of listRoots (model), compared with the code.",
     technique="Lean 4 frame/invariant proofs over the save dispatch + differential correspondence on interleaved list saves and appends",
     design="7 C10")
 CLAIMED["C11"] = dict(
